@@ -15,9 +15,9 @@ const c15Variants = 48
 func init() {
 	Register(&PropDef{
 		ID: "C15", QuickRuns: 200 * c15Variants, Level: "fault_enumeration", Variants: c15Variants,
-		Rule: fmt.Sprintf("scenario family on the P4Runtime datapath with small counter / meter arrays (8-16 cells): attach; attach + FAR update; attach + delete; two sessions sharing a gNB peer and an application filter; attach-fail-attach; two sessions behind one gNB, FAR update of the first, deletion of the second. For every scenario (one choice stream) the run is repeated with variant k = 0..%d: k=0 fault-free, k>0 fails exactly the k-th Write RPC after start-up (the failure kind is part of the scenario: transport error; response lost after the write was applied; per-update P4 error with code INTERNAL / UNAVAILABLE / NOT_FOUND / RESOURCE_EXHAUSTED / PERMISSION_DENIED / ABORTED - ALREADY_EXISTS is left out because the plug-in passes it over on purpose; UNKNOWN without details, what gRPC makes of a server exception); the FAR update goes to another gNB or repeats the same gNB; a share of the scenarios adds a random second fault. In half of the scenarios only 3-5 tunnel-peer / application ids are left in the pools (white-box bridge, before the first session). Each run then attaches further sessions towards up to nine gNBs so that a wrongly recycled id is handed out again. Oracle at the switch after every request: no counter cell, application-meter cell, session-meter cell, tunnel-peer id or application id is referenced by entries of two different owners; no id that an entry of a live session refers to sits in the plug-in's free pool (white-box bridge); no tunnel_peers INSERT arrives for an id that is installed for another gNB and referenced by a live session; the PFCP cause of an establishment / modification whose write failed is a rejection. Non-trivial = the fault fired inside a session request; distinct = different (scenario skeleton, k).", c15Variants-1),
+		Rule:   fmt.Sprintf("scenario family on the P4Runtime datapath with small counter / meter arrays (8-16 cells): attach; attach + FAR update; attach + delete; two sessions sharing a gNB peer and an application filter; attach-fail-attach; two sessions behind one gNB, FAR update of the first, deletion of the second. For every scenario (one choice stream) the run is repeated with variant k = 0..%d: k=0 fault-free, k>0 fails exactly the k-th Write RPC after start-up (the failure kind is part of the scenario: transport error; response lost after the write was applied; per-update P4 error with code INTERNAL / UNAVAILABLE / NOT_FOUND / RESOURCE_EXHAUSTED / PERMISSION_DENIED / ABORTED - ALREADY_EXISTS is left out because the plug-in passes it over on purpose; UNKNOWN without details, what gRPC makes of a server exception); the FAR update goes to another gNB or repeats the same gNB; a share of the scenarios adds a random second fault. In half of the scenarios only 3-5 tunnel-peer / application ids are left in the pools (white-box bridge, before the first session). Each run then attaches further sessions towards up to nine gNBs so that a wrongly recycled id is handed out again. Oracle at the switch after every request: no counter cell, application-meter cell, session-meter cell, tunnel-peer id or application id is referenced by entries of two different owners; no id that an entry of a live session refers to sits in the plug-in's free pool (white-box bridge); no tunnel_peers INSERT arrives for an id that is installed for another gNB and referenced by a live session; the PFCP cause of an establishment / modification whose write failed is a rejection. Non-trivial = the fault fired inside a session request; distinct = different (scenario skeleton, k).", c15Variants-1),
 		Assume: []string{"owner of a terminations / sessions entry = the UE address (downlink) or the TEID (uplink) it is installed under", "exhaustive in the position k of one failing write up to the number of writes a scenario performs (<= 47)"},
-		Real: CommonReal, Simulated: append(append([]string{}, CommonSim...), "P4Runtime switch with write-failure injection"),
+		Real:   CommonReal, Simulated: append(append([]string{}, CommonSim...), "P4Runtime switch with write-failure injection"),
 		Scenario: scenarioC15,
 	})
 }
